@@ -395,7 +395,7 @@ class _SHA2_Common(  # type: ignore[misc]
             rounds = parts.pop(0)[7:]
             if rounds.startswith(_UZERO) and rounds != _UZERO:
                 raise uh.exc.ZeroPaddedRoundsError(cls)
-            rounds = int(rounds)
+            rounds = uh.parse_int(rounds, param="rounds", handler=cls)
             implicit_rounds = False
         else:
             rounds = 5000
